@@ -293,7 +293,17 @@ class World(object):
         self.cur = None
         ev.notes.pop("_fs_last", None)
         if ev.pre is None or ev.dbcalls or ev.kind in ("start", "restart", "stop"):
-            ev.post, ev.upost = self.snapshot()
+            try:
+                ev.post, ev.upost = self.snapshot()
+            except sqlite3.OperationalError as e:
+                if "locked" not in str(e) or ev.pre is None:
+                    raise
+                # the event is over and the server still holds the write lock of a transaction it
+                # has not committed (large enough to have spilled its cache): a second reader is
+                # locked out; it keeps seeing the last committed state
+                ev.post, ev.upost = ev.pre, ev.upre
+                ev.c09.append({"frame": "<end of event: second reader locked out>", "conn": ev.conn, "db": "a"})
+                self.count("reader_locked_out")
             if ev.pre is None:
                 ev.pre, ev.upre = ev.post, ev.upost
         else:
@@ -329,12 +339,27 @@ class World(object):
         return alpha.read_channel(r)
 
     def snapshot(self):
-        chan = self.snapshot_channel()
-        usage = None
-        if self.cfg.get("usage"):
-            r = self._reader("usage")
-            if r is not None:
-                usage = alpha.read_usage(r)
+        try:
+            chan = self.snapshot_channel()
+            usage = None
+            if self.cfg.get("usage"):
+                r = self._reader("usage")
+                if r is not None:
+                    usage = alpha.read_usage(r)
+        except sqlite3.OperationalError as e:
+            last = getattr(self, "_last_snap", None)
+            if "locked" not in str(e) or last is None:
+                raise
+            # the server holds the write lock of a transaction it has not committed (one that
+            # spilled its page cache): a second reader is locked out and keeps seeing the last
+            # committed state.  Between events or while a frame goes out that is what C09 forbids.
+            self.count("reader_locked_out")
+            ev = self.cur
+            if ev is not None and not ev.notes.get("_locked_noted"):
+                ev.notes["_locked_noted"] = True
+                ev.c09.append({"frame": "<second reader locked out>", "conn": ev.conn, "db": "a"})
+            return last
+        self._last_snap = (chan, usage)
         return chan, usage
 
     # ------------------------------------------------------------- db seams
@@ -708,6 +733,13 @@ class World(object):
                     own = alpha.read_usage(db).key()
                     rd = alpha.read_usage(self._reader(name)).key()
             except Exception as e:
+                if isinstance(e, sqlite3.OperationalError) and "locked" in str(e) and intx:
+                    # (a transaction large enough to have spilled its cache: the reader cannot
+                    # even look - the frame goes out with uncommitted changes)
+                    self.cur.c09.append({"conn": c.id, "frame": t, "db": name, "in_transaction": intx,
+                                         "frame_no": len(self.cur.frames) - 1})
+                    self.count("reader_locked_out")
+                    continue
                 self.cur.errors.append({"kind": "harness_error", "text": "c09 read: %r" % (e,)})
                 continue
             if own != rd:
